@@ -1758,3 +1758,277 @@ Proof.
     change (flat_map (fun r : record => snd (fst r)) (run s1' post)) with (trace (run s1' post)).
     rewrite (after_once_quiet post s1' O1 W2 KFinal (i_id x) (or_intror eq_refl)). apply app_nil_r.
 Qed.
+
+(* ------------------------------------------------------------------ whose wait group a goroutine holds *)
+(* every running Serve goroutine belongs to a known instance and holds that instance's wait group *)
+Definition rooted (s : state) : Prop :=
+  forall e, In e (serving s) -> exists x, In x (known s) /\ i_id x = fst (fst e) /\ i_root x = snd e.
+
+Lemma take_serving_incl i j sv root sv1 e : take_serving i j sv = Some (root, sv1) -> In e sv1 -> In e sv.
+Proof.
+  revert root sv1. induction sv as [|x sv IH]; intros root sv1 H Hin; simpl in H; [discriminate|].
+  destruct ((fst (fst x) =? i) && (snd (fst x) =? j)).
+  - injection H as <- <-. right. exact Hin.
+  - destruct (take_serving i j sv) as [[r' l']|]; [|discriminate]. injection H as <- <-.
+    destruct Hin as [<-|Hin]; [left; reflexivity|right; eapply IH; eauto].
+Qed.
+
+Lemma stop_servers_incl i srv : forall w sv w' sv' ev e,
+  stop_servers i srv w sv = (w', sv', ev) -> In e sv' -> In e sv.
+Proof.
+  induction srv as [|[j sp] srv IH]; intros w sv w' sv' ev e H Hin; simpl in H.
+  - injection H as <- <- <-. exact Hin.
+  - destruct (sv_graceful sp); [|eapply IH; eauto].
+    destruct (take_serving i j sv) as [[root sv1]|] eqn:T.
+    + destruct (stop_servers i srv (wg_done root w) sv1) as [[w2 sv2] ev2] eqn:E.
+      injection H as <- <- <-. eapply take_serving_incl; eauto.
+    + destruct (stop_servers i srv w sv) as [[w2 sv2] ev2] eqn:E.
+      injection H as <- <- <-. eapply IH; eauto.
+Qed.
+
+Lemma rooted_stop_inst o s s' ev : stop_inst o s = (s', ev) -> rooted s -> rooted s'.
+Proof.
+  unfold stop_inst. destruct (stop_servers (i_id o) (i_srv o) (wg s) (serving s)) as [[w sv] e0] eqn:E.
+  intros H R. injection H as <- <-. intros e He. simpl in *. apply R. eapply stop_servers_incl; eauto.
+Qed.
+
+Lemma rooted_stop_all l : forall s s' ev, stop_all l s = (s', ev) -> rooted s -> rooted s'.
+Proof.
+  induction l as [|o l IH]; intros s s' ev E R; simpl in E.
+  - injection E as <- <-. exact R.
+  - destruct (stop_inst o (set_wg s (wg_add (i_root o) 1 (wg s)))) as [sa ea] eqn:E1.
+    destruct (stop_all l sa) as [sb eb] eqn:E2. injection E as <- <-.
+    assert (R2 : rooted sb) by (eapply IH; [exact E2|]; eapply rooted_stop_inst; [exact E1|]; exact R).
+    exact R2.
+Qed.
+
+Lemma rooted_commit ni nx s : rooted s -> rooted (commit ni nx s).
+Proof.
+  intro R. unfold commit. destruct (spawn (i_id ni) (i_root ni) (i_srv ni) (wg s) (serving s)) as [w sv] eqn:E.
+  intros e He. simpl in *. rewrite (spawn_serving _ _ _ _ _ _ _ E) in He.
+  apply in_app_or in He as [He|He].
+  - destruct (R e He) as [x [Hx Hr]]. exists x. split; [apply in_or_app; auto|exact Hr].
+  - apply in_map_iff in He as [y [<- _]]. exists ni. simpl. split; [apply in_or_app; right; left; reflexivity|auto].
+Qed.
+
+Lemma step_rooted s o s' ev r : step s o = (s', ev, r) -> rooted s -> rooted s'.
+Proof.
+  destruct o as [c|h c|h| |h| |h]; simpl; intros H R.
+  - unfold do_start in H. destruct (start_plan c (next s) false [] 0) as [[e ok] saved].
+    destruct ok; injection H as <- <- <-; [apply rooted_commit; exact R|exact R].
+  - unfold do_restart in H. destruct (find_inst h (known s)) as [o|]; [|injection H as <- <- <-; exact R].
+    destruct (restart_body o c (set_wg s (wg_add (i_root o) 1 (wg s)))) as [[s1 e1] r1] eqn:E.
+    injection H as <- <- <-.
+    apply restart_body_cases in E. cbv zeta in E. simpl in E.
+    destruct E as [[_ [-> _]] | [_ [e2 [ok2 [saved [P [[_ [-> _]] | [_ [e3 [S3 _]]]]]]]]]]; try exact R.
+    assert (R1 : rooted s1).
+    { eapply rooted_stop_inst; [exact S3|]. apply rooted_commit. exact R. }
+    exact R1.
+  - destruct (find_inst h (known s)) as [x|]; [|injection H as <- <- <-; exact R].
+    destruct (stop_inst x s) as [s2 e2] eqn:E. injection H as <- <- <-. eapply rooted_stop_inst; eauto.
+  - destruct (stop_all (insts s) s) as [s2 e2] eqn:E. injection H as <- <- <-. eapply rooted_stop_all; eauto.
+  - destruct (find_inst h (known s)); injection H as <- <- <-; exact R.
+  - destruct (once s); injection H as <- <- <-; exact R.
+  - destruct (find_inst h (known s)); injection H as <- <- <-; exact R.
+Qed.
+
+Lemma final_rooted ops : forall s, rooted s -> rooted (final s ops).
+Proof.
+  induction ops as [|o l IH]; intros s R; simpl; [exact R|].
+  destruct (step s o) as [[s' ev] r] eqn:E. simpl. apply IH. eapply step_rooted; eauto.
+Qed.
+
+(* Wait returns only when no server of ANY instance of the lineage (the instance itself, its
+   predecessors and its successors: all known instances sharing its wait group) is serving *)
+Lemma wait_means_lineage_stopped ops h s' ev o :
+  step (final init ops) (OWait h) = (s', ev, RBool true) ->
+  find_inst h (known (final init ops)) = Some o ->
+  forall x, In x (known (final init ops)) -> i_root x = i_root o ->
+  forall j r, ~ In (i_id x, j, r) (serving (final init ops)).
+Proof.
+  intros H F x Hx Hr j r Hin.
+  destruct (wait_after_all_servers _ _ _ _ H) as [o' [F' W]]. rewrite F in F'. injection F' as <-.
+  assert (R : rooted (final init ops)) by (apply final_rooted; intros e []).
+  destruct (R _ Hin) as [y [Hy [Hid Hroot]]]. simpl in Hid, Hroot.
+  pose proof (live_instances_distinct ops) as G.
+  pose proof (find_unique _ _ (g_nodup _ G) Hy) as F1. pose proof (find_unique _ _ (g_nodup _ G) Hx) as F2.
+  rewrite Hid, F2 in F1. injection F1 as <-.
+  apply (W _ Hin). simpl. rewrite <- Hroot. exact Hr.
+Qed.
+
+(* ------------------------------------------------------------------ the servers still serving, read off the trace *)
+Fixpoint drop_pair (i j : nat) (l : list (nat * nat)) : list (nat * nat) :=
+  match l with
+  | [] => []
+  | x :: r => if (fst x =? i) && (snd x =? j) then r else x :: drop_pair i j r
+  end.
+
+(* servers whose Serve was called and has not returned, in the order they began *)
+Fixpoint serving_of (tr : list event) (acc : list (nat * nat)) : list (nat * nat) :=
+  match tr with
+  | [] => acc
+  | EServe i j :: r => serving_of r (acc ++ [(i, j)])
+  | ERet i j :: r => serving_of r (drop_pair i j acc)
+  | _ :: r => serving_of r acc
+  end.
+
+Lemma serving_of_app a : forall b acc, serving_of (a ++ b) acc = serving_of b (serving_of a acc).
+Proof. induction a as [|e a IH]; intros b acc; simpl; [reflexivity|]. destruct e; apply IH. Qed.
+
+Definition quiet (l : list event) : Prop := forallb (fun e => negb (is_async e)) l = true.
+
+Lemma serving_of_quiet l : forall acc, quiet l -> serving_of l acc = acc.
+Proof.
+  unfold quiet. induction l as [|e l IH]; intros acc H; simpl in *; [reflexivity|].
+  apply andb_true_iff in H as [H1 H2]. destruct e; simpl in H1; try discriminate; apply IH; exact H2.
+Qed.
+
+Lemma quiet_app a b : quiet a -> quiet b -> quiet (a ++ b).
+Proof. unfold quiet. intros. rewrite forallb_app. apply andb_true_iff. auto. Qed.
+
+Lemma quiet_cbs k i ns : quiet (cb_events k i ns).
+Proof. unfold quiet, cb_events. induction ns; simpl; auto. Qed.
+
+Lemma quiet_listen i oi l : forallb (is_listen_ev i oi) l = true -> quiet l.
+Proof.
+  unfold quiet. induction l as [|e l IH]; simpl; [auto|]. intro H. apply andb_true_iff in H as [H1 H2].
+  rewrite (IH H2), andb_true_r. destruct e; try discriminate; reflexivity.
+Qed.
+
+Lemma quiet_after i saved : quiet (after_events i saved).
+Proof. unfold quiet, after_events. induction saved; simpl; auto. Qed.
+
+Lemma serve_events_trace i saved : forall acc,
+  serving_of (serve_events i saved) acc = acc ++ map (fun x => (i, fst x)) saved.
+Proof.
+  induction saved as [|x l IH]; intros acc; simpl; [rewrite app_nil_r; reflexivity|].
+  rewrite IH, <- app_assoc. reflexivity.
+Qed.
+
+Lemma take_serving_drop i j sv root sv1 :
+  take_serving i j sv = Some (root, sv1) -> map fst sv1 = drop_pair i j (map fst sv).
+Proof.
+  revert root sv1. induction sv as [|x sv IH]; intros root sv1 H; simpl in H; [discriminate|].
+  simpl. destruct ((fst (fst x) =? i) && (snd (fst x) =? j)).
+  - injection H as <- <-. reflexivity.
+  - destruct (take_serving i j sv) as [[r' l']|]; [|discriminate]. injection H as <- <-.
+    simpl. rewrite (IH _ _ eq_refl). reflexivity.
+Qed.
+
+Lemma stop_servers_trace i srv : forall w sv w' sv' ev,
+  stop_servers i srv w sv = (w', sv', ev) -> serving_of ev (map fst sv) = map fst sv'.
+Proof.
+  induction srv as [|[j sp] srv IH]; intros w sv w' sv' ev H; simpl in H.
+  - injection H as <- <- <-. reflexivity.
+  - destruct (sv_graceful sp); [|eapply IH; eauto].
+    destruct (take_serving i j sv) as [[root sv1]|] eqn:T.
+    + destruct (stop_servers i srv (wg_done root w) sv1) as [[w2 sv2] ev2] eqn:E.
+      injection H as <- <- <-. simpl. rewrite <- (take_serving_drop _ _ _ _ _ T). eapply IH; eauto.
+    + destruct (stop_servers i srv w sv) as [[w2 sv2] ev2] eqn:E.
+      injection H as <- <- <-. simpl. eapply IH; eauto.
+Qed.
+
+Lemma stop_inst_trace o s s' ev :
+  stop_inst o s = (s', ev) -> serving_of ev (map fst (serving s)) = map fst (serving s').
+Proof.
+  unfold stop_inst. destruct (stop_servers (i_id o) (i_srv o) (wg s) (serving s)) as [[w sv] e] eqn:E.
+  intro H. injection H as <- <-. simpl. eapply stop_servers_trace; eauto.
+Qed.
+
+Lemma stop_all_trace l : forall s s' ev,
+  stop_all l s = (s', ev) -> serving_of ev (map fst (serving s)) = map fst (serving s').
+Proof.
+  induction l as [|o l IH]; intros s s' ev E; simpl in E.
+  - injection E as <- <-. reflexivity.
+  - destruct (stop_inst o (set_wg s (wg_add (i_root o) 1 (wg s)))) as [sa ea] eqn:E1.
+    destruct (stop_all l sa) as [sb eb] eqn:E2. injection E as <- <-. simpl.
+    rewrite serving_of_app. apply stop_inst_trace in E1. simpl in E1. rewrite E1. eapply IH; eauto.
+Qed.
+
+Lemma commit_serving ni nx s :
+  map fst (serving (commit ni nx s)) = map fst (serving s) ++ map (fun x => (i_id ni, fst x)) (i_srv ni).
+Proof.
+  unfold commit. destruct (spawn (i_id ni) (i_root ni) (i_srv ni) (wg s) (serving s)) as [w sv] eqn:E. simpl.
+  rewrite (spawn_serving _ _ _ _ _ _ _ E), map_app, map_map. reflexivity.
+Qed.
+
+(* the events of a start attempt, as far as serving is concerned *)
+Lemma plan_trace c i restart old oi ev ok saved acc :
+  plan_shape c i restart old oi ev ok saved ->
+  serving_of ev acc = if ok then acc ++ map (fun x => (i, fst x)) saved else acc.
+Proof.
+  intros [hd f su li tl Heq Hhd _ _ _ _ _ Hli Htl Hft Hok]. subst ev.
+  assert (Qh : quiet hd) by (destruct Hhd as [->|[->| ->]]; reflexivity).
+  rewrite !serving_of_app, (serving_of_quiet hd _ Qh), (serving_of_quiet _ _ (quiet_cbs _ _ _)),
+    (serving_of_quiet _ _ (quiet_cbs _ _ _)), (serving_of_quiet _ _ (quiet_listen _ _ _ Hli)).
+  destruct ok.
+  - destruct (Hok eq_refl) as [_ [_ [_ [_ [_ ->]]]]]. rewrite serving_of_app, serve_events_trace.
+    apply serving_of_quiet. destruct restart; [reflexivity|apply quiet_after].
+  - rewrite (Hft eq_refl). reflexivity.
+Qed.
+
+Lemma step_trace s o s' ev r :
+  step s o = (s', ev, r) -> serving_of ev (map fst (serving s)) = map fst (serving s').
+Proof.
+  destruct o as [c|h c|h| |h| |h]; simpl; intro H.
+  - unfold do_start in H. destruct (start_plan c (next s) false [] 0) as [[e ok] saved] eqn:E.
+    pose proof (start_plan_shape _ _ _ _ _ _ _ _ E) as Sh.
+    destruct ok; injection H as <- <- <-.
+    + rewrite serving_of_app, (plan_trace _ _ _ _ _ _ _ _ _ Sh). simpl. rewrite commit_serving. reflexivity.
+    + rewrite (plan_trace _ _ _ _ _ _ _ _ _ Sh). reflexivity.
+  - unfold do_restart in H. destruct (find_inst h (known s)) as [o|]; [|injection H as <- <- <-; reflexivity].
+    destruct (restart_body o c (set_wg s (wg_add (i_root o) 1 (wg s)))) as [[s1 e1] r1] eqn:E.
+    injection H as <- <- <-. simpl.
+    apply restart_body_cases in E. cbv zeta in E. simpl in E.
+    destruct E as [[_ [-> [_ ->]]] | [_ [e2 [ok2 [saved [P E]]]]]].
+    + simpl. apply serving_of_quiet. apply quiet_app; apply quiet_cbs.
+    + pose proof (start_plan_shape _ _ _ _ _ _ _ _ P) as Sh.
+      destruct E as [[-> [-> [_ ->]]] | [-> [e3 [S3 E]]]].
+      * simpl. rewrite serving_of_app, (serving_of_quiet _ _ (quiet_cbs _ _ _)).
+        rewrite serving_of_app, (plan_trace _ _ _ _ _ _ _ _ _ Sh). cbv iota.
+        apply serving_of_quiet. apply quiet_cbs.
+      * apply stop_inst_trace in S3. rewrite commit_serving in S3. simpl in S3.
+        destruct E as [[_ [_ ->]] | [_ [_ ->]]];
+          rewrite serving_of_app, (serving_of_quiet _ _ (quiet_cbs _ _ _));
+          rewrite serving_of_app, (plan_trace _ _ _ _ _ _ _ _ _ Sh); cbv iota;
+          rewrite serving_of_app, S3;
+          apply serving_of_quiet.
+        -- apply quiet_app; apply quiet_cbs.
+        -- apply quiet_app; [apply quiet_cbs|reflexivity].
+  - destruct (find_inst h (known s)) as [x|]; [|injection H as <- <- <-; reflexivity].
+    destruct (stop_inst x s) as [s2 e2] eqn:E. injection H as <- <- <-. eapply stop_inst_trace; eauto.
+  - destruct (stop_all (insts s) s) as [s2 e2] eqn:E. injection H as <- <- <-. eapply stop_all_trace; eauto.
+  - destruct (find_inst h (known s)) as [x|]; injection H as <- <- <-; [|reflexivity].
+    apply serving_of_quiet. unfold shutdown_cbs. rewrite !run_all_labels. apply quiet_app; apply quiet_cbs.
+  - destruct (once s); injection H as <- <- <-; [reflexivity|]. simpl.
+    apply serving_of_quiet. unfold all_shutdown. induction (insts s) as [|x l IH]; [reflexivity|].
+    simpl. apply quiet_app; [|exact IH]. unfold shutdown_cbs. rewrite !run_all_labels. apply quiet_app; apply quiet_cbs.
+  - destruct (find_inst h (known s)); injection H as <- <- <-; reflexivity.
+Qed.
+
+Lemma run_trace ops : forall s,
+  serving_of (trace (run s ops)) (map fst (serving s)) = map fst (serving (final s ops)).
+Proof.
+  induction ops as [|o l IH]; intros s; simpl; [reflexivity|].
+  destruct (step s o) as [[s' ev] r] eqn:E. rewrite trace_cons. change (rec_events (o, ev, r)) with ev.
+  rewrite serving_of_app, (step_trace _ _ _ _ _ E). apply IH.
+Qed.
+
+(* the Serve goroutines of the state are exactly the servers that the trace shows serving and not
+   yet returned *)
+Lemma serving_matches_trace ops :
+  map fst (serving (final init ops)) = serving_of (trace (run init ops)) [].
+Proof. symmetry. apply (run_trace ops init). Qed.
+
+(* Wait in terms of the trace alone: when Wait on h returns, no server of any instance of h's
+   lineage is among those the trace shows still serving *)
+Lemma wait_trace ops h s' ev o :
+  step (final init ops) (OWait h) = (s', ev, RBool true) ->
+  find_inst h (known (final init ops)) = Some o ->
+  forall x, In x (known (final init ops)) -> i_root x = i_root o ->
+  forall j, ~ In (i_id x, j) (serving_of (trace (run init ops)) []).
+Proof.
+  intros H F x Hx Hr j Hin. rewrite <- serving_matches_trace in Hin.
+  apply in_map_iff in Hin as [[[a b] r0] [E Hin]]. simpl in E. injection E as -> ->.
+  eapply wait_means_lineage_stopped; eauto.
+Qed.
